@@ -1197,8 +1197,11 @@ def r142_locks(ctx, repo):
 
 # ----------------------------------------------------------------------
 def r143(ctx, repo, sites):
+    # private step methods are inlined; module-level functions are left to
+    # the evaluator, which interprets them by definition
     vb = inline_module_helpers(repo, FB, repo.func(FB, "Basin.verify_basin"),
-                               methods=True, keep=KEEP_CALLS)
+                               methods=True, keep=KEEP_CALLS,
+                               functions=False)
     vb_names = {"verify_basin"} | set(getattr(vb, "inlined_names", ()))
     REF = "self.measurement_identifier"
     BAS = ("self.get_measurement_identifier()",
@@ -2557,6 +2560,31 @@ def _twin_verify_guard_clauses(src):
         "and check_avail\n") + src[b + len(tail):]
 
 
+def _twin_verify_split(src):
+    """verify_basin split into two private step methods"""
+    a = src.index("        if availability:\n"
+                  "            check_avail = self.is_available()\n")
+    b = src.index("        if run_identifier and check_avail:\n")
+    c = src.index("            check_rid = self._measurement_identifier_verified\n")
+    d = src.index("        return check_rid and check_avail\n")
+    tail = "        return check_rid and check_avail\n"
+    avail = src[a:b]
+    inner = src[b:c].split("\n", 1)[1]         # body of the outer if
+    inner = "".join(ln[4:] if ln.strip() else ln
+                    for ln in inner.splitlines(True))
+    return (src[:a]
+            + "        check_avail = self._verify_availability(availability)\n"
+            + "        if run_identifier and check_avail:\n"
+            + "            check_rid = self._verify_run_identifier()\n"
+            + "        else:\n            check_rid = True\n"
+            + tail + "\n"
+            + "    def _verify_availability(self, availability=True):\n"
+            + avail.rstrip("\n") + "\n        return check_avail\n\n"
+            + "    def _verify_run_identifier(self):\n" + inner.rstrip("\n")
+            + "\n        return self._measurement_identifier_verified\n"
+            + src[d + len(tail):])
+
+
 def _twin_forward_constant(src):
     """forwarding list as module constant, early raise"""
     a = src.index("    def __getattr__(self, item):\n        if item in [\n"
@@ -2611,6 +2639,7 @@ TWINS = [
       "        self._ds.ignore_basins(seen_basin_keys)\n"
       "        return self._ds\n")),
     ("ignore keys collected by a loop and extend()", CORE, _twin_key_loop),
+    ("verify_basin split into two step methods", FB, _twin_verify_split),
     ("availability probe with HEAD that follows redirects",
      "dclab/http_utils.py",
      ("req = ses.get(url, stream=True, timeout=1)",
